@@ -31,13 +31,25 @@ struct Axis {
 type SegMap = Vec<(i16, i16)>;
 
 fn write_fvar(axes: &[Axis]) -> Vec<u8> {
+    // axisSize: 20 is what every font uses, larger records (future extension, padded here with a poison
+    // pattern) are valid and must be skipped by stride; the choice is a function of the axes so that the
+    // case stays a function of its description
+    let h = axes.iter().fold(0x9E37u32, |h, a| h.wrapping_mul(31).wrapping_add(a.def as u32 ^ (a.max as u32).rotate_left(7)));
+    let axis_size: u16 = [20u16, 20, 24, 32, 22][(h % 5) as usize];
     let mut w = W::new();
-    w.u16(1).u16(0).u16(16).u16(2).u16(axes.len() as u16).u16(20).u16(0).u16(4 * axes.len() as u16 + 4);
+    w.u16(1).u16(0).u16(16).u16(2).u16(axes.len() as u16).u16(axis_size).u16(0).u16(4 * axes.len() as u16 + 4);
     for (i, a) in axes.iter().enumerate() {
         w.u32(u32::from_be_bytes([b'a', b'x', b'0' + (i / 10) as u8, b'0' + (i % 10) as u8]));
         w.i32(a.min).i32(a.def).i32(a.max).u16(0).u16(256 + i as u16);
+        for _ in 20..axis_size {
+            w.u8(0xEE);
+        }
     }
     w.b
+}
+
+fn fvar_axis_size(fvar: &[u8]) -> u16 {
+    crate::sfnt::be16(fvar, 10).unwrap_or(20)
 }
 
 fn write_avar(maps: &[SegMap]) -> Vec<u8> {
@@ -233,6 +245,9 @@ fn user_values(rng: &mut Rng, a: &Axis, map: Option<&SegMap>) -> Vec<i32> {
 impl C13 {
     fn check_axis(&self, cx: &mut Ctx, rng: &mut Rng, axes: &[Axis], maps: Option<&[SegMap]>, k: usize) {
         let fvar_bytes = write_fvar(axes);
+        if axes.len() >= 2 {
+            cx.class(if fvar_axis_size(&fvar_bytes) == 20 { "fvar:axisSize=20" } else { "fvar:axisSize>20,several-axes" });
+        }
         let avar_bytes = maps.map(write_avar);
         let fvar = match ReadScope::new(&fvar_bytes).read::<FvarTable<'_>>() {
             Ok(f) => f,
